@@ -20,11 +20,26 @@ worker() {
     d=$DIR/$s; [ -f $d/patch.diff ] || continue
     pid=${s:0:3}
     if ! git -C $W/repo apply $d/patch.diff 2>/dev/null; then echo "$s: PATCH DOES NOT APPLY"; continue; fi
-    out=$(VERIF_DIR=$W/verif $W/verif/check $pid ${TIER:-quick} 2>&1); rc=$?
+    checks=$pid
+    if [ -n "${CROSS:-}" ]; then
+      # every check whose subject the patch touches (CROSS=1): a change that preserves one property may break another,
+      # so alarms of the other checks have to be judged one by one
+      f=$(grep "^diff --git" $d/patch.diff)
+      echo "$f" | grep -q " a/amf0/" && checks="$checks C04 C12 C13 C14 C03"
+      echo "$f" | grep -q "chunk_io/" && checks="$checks C01 C06 C07 C08 C15 C16 C18 C19 C02 C03 C17"
+      echo "$f" | grep -q "sessions/" && checks="$checks C02 C03 C09 C10 C15 C17 C18 C19"
+      echo "$f" | grep -q "handshake/" && checks="$checks C05 C11 C03"
+      echo "$f" | grep -q "time.rs" && checks="$checks C20 C01 C07"
+      echo "$f" | grep -q "messages/" && checks="$checks C13 C03 C09 C10 C18"
+      checks=$(echo $checks | tr ' ' '\n' | sort -u | tr '\n' ' ')
+    fi
+    for c in $checks; do
+      out=$(VERIF_DIR=$W/verif $W/verif/check $c ${TIER:-quick} 2>&1); rc=$?
+      sig=$(echo "$out" | grep -m1 -E "^(DETAIL|MACHINERY)" | sed 's/^DETAIL property=[A-Z0-9]* signature=//' | cut -c1-160)
+      note=$(echo "$out" | grep -m1 -c "^NOTE")
+      if [ -n "${CROSS:-}" ]; then echo "$s/$c: rc=$rc lax=$note $sig"; else echo "$s: rc=$rc lax=$note $sig"; fi
+    done
     git -C $W/repo checkout -q -- .
-    sig=$(echo "$out" | grep -m1 -E "^(DETAIL|MACHINERY)" | sed 's/^DETAIL property=[A-Z0-9]* signature=//' | cut -c1-160)
-    note=$(echo "$out" | grep -m1 -c "^NOTE")
-    echo "$s: rc=$rc lax=$note $sig"
   done
 }
 for w in $(seq 0 $((N-1))); do worker $w > /tmp/vw/out.$w 2>&1 & done
